@@ -18,6 +18,15 @@ import (
 func ZZ_C13_podHashStamp() {
 	in := zzC10Pick(true)
 	rs, node, setting := zzC10Build(in)
+	// the template may itself carry the controller's stamp keys with stale values (a template copied from
+	// the manifest of a running pod): the controller's own stamps win on the pods it creates
+	if nondet.Bool("templateCarriesStaleStamps") {
+		rs.Spec.Template.Annotations = map[string]string{
+			datadoghqv1alpha1.MD5ExtendedDaemonSetAnnotationKey:     "0123456789abcdef0123456789abcdef",
+			datadoghqv1alpha1.MD5NodeExtendedDaemonSetAnnotationKey: "fedcba9876543210fedcba9876543210",
+			"team": "x",
+		}
+	}
 	// the recorded hash of the replica set is the hash of its template
 	h, herr := comparison.GenerateMD5PodTemplateSpec(&rs.Spec.Template)
 	nondet.Assert("C13.pod.hashable", herr == nil)
